@@ -266,6 +266,7 @@ def monitor_case(ops, obs, which):
         viol.append((p, sig, msg, i))
     for i in range(1, len(ops)):
         t = ops[i].split()
+        if t and t[0] in ("wput", "wput_var"): t[0] = t[0][1:]     # the io::Write-flavoured wrappers: same contract
         o = parse_obs(obs[i])
         r = o.get("r", "")
         if r in ("nocase", "nohandle", "na") or not t:
